@@ -511,6 +511,40 @@ def _consume(x):
     return [snap(v, result=True) for v in x]
 
 
+def run_chunk_program(ch, prog):
+    """a sequence of public operations on a lazily read chunk and on what they return; the chunk itself must stay as read"""
+    bnp = B()
+    cur = ch
+    out = []
+    for op in prog:
+        n = len(cur)
+        if op == "fields":
+            out.append([snap(v) for v in _fields(cur)])
+        elif op == "first_field":
+            out.append(snap(getattr(cur, dataclasses.fields(cur)[0].name)))
+        elif op == "slice":
+            cur = cur[1:] if n > 1 else cur[:]
+        elif op == "head":
+            cur = cur[:max(1, n - 1)]
+        elif op == "mask":
+            cur = cur[_mask(n)]
+        elif op == "ints":
+            cur = cur[np.arange(n)[::-1]]
+        elif op == "concat_self":
+            cur = np.concatenate([cur, cur])
+        elif op == "replace":
+            name = _first_int_field(cur)
+            if name is not None:
+                cur = bnp.replace(cur, **{name: np.asarray(getattr(cur, name)) + 1})
+        elif op == "write":
+            out.append(written_bytes(cur) if _is_lazy(cur) else None)
+        elif op == "data_object":
+            out.append(snap(cur.get_data_object() if _is_lazy(cur) else cur))
+        elif op == "back":
+            cur = ch
+    return out
+
+
 def registry2(R):
     """second batch: every further public callable reachable from bionumpy.__all__ and the io / streams /
     genomic-data / variants / util entry points"""
@@ -665,6 +699,10 @@ def registry2(R):
     R["apply_variants"] = (lambda se, v: va.apply_variants(se, v), ["seqentries+snps"])
     R["count_mutation_types"] = (lambda v, s: snap(va.count_mutation_types(v, s), result=True), ["snps+flatseq"])
     # --- util
+    R["chunk.program"] = (lambda ch, prog: run_chunk_program(ch, prog), ["chunk+program"])
+    R["gi.clip(out of bounds)"] = (lambda gi: snap(gi.clip()), ["gintervals_oob"])
+    R["gi.extended_to_size(oob)"] = (lambda gi, n: snap(gi.extended_to_size(n)), ["gintervals_oob+len"])
+    R["gi.get_mask/pileup(after clip)"] = (lambda gi: (snap(gi.clip().get_mask()), snap(gi.clip().get_pileup())), ["gintervals_oob"])
     R["util.interleave"] = (lambda a, b: interleave(a, b), ["two_int_arrays"])
     R["bnp.replace(kwargs several)"] = (lambda t, v: bnp.replace(t, start=v, stop=v + 1), ["table+newstart"])
     return R
@@ -1210,6 +1248,23 @@ def gen_args(kind, rng):
         return [{"k": "list", "items": [gen_args("codon_entries", rng)[0] for _ in range(rng.choice([1, 2, 3]))]}]
     if kind == "bam_chunks_list":
         return [{"k": "list", "items": [file_spec(rng, fmt="bam") for _ in range(rng.choice([1, 2]))]}]
+    if kind == "chunk+program":
+        ops = ["fields", "first_field", "slice", "head", "mask", "ints", "concat_self", "replace", "write", "data_object", "back"]
+        return [file_spec(rng), py([rng.choice(ops) for _ in range(rng.choice([2, 3, 4, 6]))])]
+    if kind in ("gintervals_oob", "gintervals_oob+len"):
+        n = rng.choice([1, 2, 3, 5])
+        rows = []
+        for _ in range(n):
+            c = rng.choice(CHROMS)
+            a = rng.randrange(0, SIZES[c])
+            rows.append((c, a, a + rng.choice([1, 5, SIZES[c], 2 * SIZES[c]])))
+        rows.sort(key=lambda r: (CHROMS.index(r[0]), r[1], r[2]))
+        stranded = kind.endswith("+len")
+        cols = {"chromosome": _strs([r[0] for r in rows]), "start": {"k": "ints", "v": [r[1] for r in rows]}, "stop": {"k": "ints", "v": [r[2] for r in rows]}}
+        if stranded:
+            cols["strand"] = _strs([rng.choice("+-") for _ in rows])
+        g = {"k": "gintervals", "sizes": SIZES, "table": {"k": "table", "cls": "StrandedInterval" if stranded else "Interval", "cols": cols}, "stranded": stranded}
+        return [g, py(rng.choice([1, 7, 30]))] if stranded else [g]
     if kind == "genome1":
         return [{"k": "genome", "sizes": SIZES}]
     if kind == "gintervals_stranded+len0":
@@ -1256,7 +1311,7 @@ def cases(tier, rng):
     per = 250 if big else 20
     for name, (fn, kinds) in R.items():
         for kind in kinds:
-            reps = per * (4 if kind in ("chunk", "chunks") else 1)
+            reps = per * (4 if kind in ("chunk", "chunks") else 8 if kind == "chunk+program" else 1)
             for _ in range(reps):
                 yield {"op": "call", "fn": name, "gen": kind, "args": gen_args(kind, rng),
                        "variant": rng.choice(["plain", "plain", "views", "views", "readonly", "empty"])}
